@@ -2,6 +2,8 @@ import Driver.Common
 import Canopy.Model.Bytes
 import Canopy.Gen.Keys
 import Canopy.Model.SignBytes
+import Canopy.Model.ProtoCrit
+import Canopy.Gen.Proto
 /-! Driver for C19: (a) M-key, (b) sign bytes of certificates and consensus messages, (c) the modelled
 decoders. Stateless, one answer per line. -/
 namespace Driver.C19
@@ -149,6 +151,12 @@ def step (line : String) : String :=
         match (if protoMaxMessageBytes < b.length || !preflight b then none else decodeLoose b) with
         | some (_, true) => "err unknown-fields"
         | _ => "err"
+  | ["deccrit", ty, raw] =>
+    -- lib.Unmarshal of a critical message: generic schema-directed walk over the regenerated schemas
+    if ty != "QuorumCertificate" && ty != "Block" && ty != "Transaction" then "bad-op"
+    else match ofHex raw with
+      | some b => (ProtoCrit.checkCritical Gen.Proto.messages Gen.Proto.enums ty b).toString
+      | none => "bad-op"
   | ["preflight", raw] =>
     match ofHex raw with
     | some b => if preflight b then "ok" else "err"
